@@ -54,7 +54,23 @@ def tableOk (tbl : ClassTable) : Bool :=
     -- str / bytes literals carry no generic structure towards the builtin containers
     (!(c == C.tuple || c == C.list || c == C.set || c == C.frozenset || c == C.dict) ||
       (gOkScalar tbl C.str c && gOkScalar tbl C.bytes c)) &&
-    allBelow n fun k => !(objCls tbl k) || isContainerCls k || gOkScalar tbl k c)
+    allBelow n fun k => !(objCls tbl k) || isContainerCls k || gOkScalar tbl k c) &&
+  -- Laws added for the proof of `assign_known_eq_mem_partial` (Props/C03.lean); each excludes a
+  -- class table on which the model and the spec differ for reasons unrelated to pyanalyze:
+  -- (B) the builtin class ids 0..13 are in range (otherwise the rows of `clsOf o` are unconstrained)
+  decide (14 ≤ n) &&
+  -- (T) `tuple`/`list` (the only sequence-form classes) are not protocols and have one parameter
+  !(tbl.isProtocol C.tuple) && !(tbl.isProtocol C.list) &&
+  tbl.arity C.tuple == 1 && tbl.arity C.list == 1 &&
+  -- (L) no other class of the object universe is a subclass of `tuple`/`list` (such instances would
+  --     have no element structure in `Obj`, while `SequenceValue.can_assign` falls back to the
+  --     nominal check and accepts them)
+  allBelow n (fun k => !(objCls tbl k) || k == C.tuple || k == C.list ||
+    (!(sub tbl k C.tuple) && !(sub tbl k C.list))) &&
+  -- (U) user classes and metaclasses are not the builtin container classes, and `type(c)` is
+  --     listed as a metaclass (so the scalar law above applies to instances and class objects)
+  allBelow n (fun k => !(tbl.isUser k && isContainerCls k) && !(isContainerCls (tbl.metaOf k)) &&
+    tbl.metaL.contains (tbl.metaOf k))
 where
   /-- classes without instances in the object universe (their `nominalK` row is not populated) -/
   isAbstractOrMeta (tbl : ClassTable) (d : Cls) : Bool := !(instCls tbl d)
